@@ -16,7 +16,7 @@ from .ctx import CTX, PathEnd, OutOfSubset
 from .sym import (SInt, SBool, SStr, SRef, SBV, SReal, PyRaise, mk_int, mk_bool, mk_str, _zint, _zbool, zstr,
                   is_sym, ite)
 from .values import (Opaque, AbstractSeq, OneShotIter, EnumMember, FuncVal, BoundMethod, PropertyVal, HostFn, HostModule, ClassVal, VObj,
-                     RangeVal, IterVal, VDict, VSet, VList, GhostVal, PointwiseSeq, UNROLL_LIMIT)
+                     RangeVal, IterVal, VDict, VSet, VList, GhostVal, PointwiseSeq, UNROLL_LIMIT, note_write)
 
 
 def repo_root():
@@ -483,6 +483,7 @@ class Interp:
                     raise PyRaise(AttributeError("can't set attribute"))
                 self.call(BoundMethod(a.fset, v), [val], {})
                 return
+            note_write(v)
             v.fields[name] = val
             return
         if isinstance(v, ModuleVal):
@@ -869,6 +870,7 @@ class Interp:
             v.set(k, val)
             return
         if isinstance(v, VDict):
+            note_write(v)
             if deep_sym(k) or v.sym:
                 for kk in list(v.d):
                     if self.truthy(self.compare_one(ast.Eq(), kk, k)):
@@ -1365,6 +1367,29 @@ class Interp:
                     cur.items = []
         return out
 
+    def _frame_open(self, scope, assigned, spec):
+        """dynamic frame check of a loop, part 1 (after the havoc): remember which heap objects exist and which of them the
+        havoc covered (the objects bound to the havoced names; a havoced list keeps its identity)"""
+        allowed = set()
+        for nm in assigned:
+            v = scope.vars.get(nm)
+            if isinstance(v, (VList, VSet, VDict, VObj)):
+                allowed.add(id(v))
+        return (CTX.births, len(CTX.writes), allowed)
+
+    def _frame_check(self, token, spec, key):
+        """part 2 (after one arbitrary iteration): every object the iteration changed in place must be new (created by the
+        iteration) or covered by the havoc; otherwise the exit path would keep the object's pre-loop content -- the loop is
+        then outside the subset (undecided), never silently summarised.  A contract with `ghost_havoc` states the heap effect
+        itself and is trusted with it."""
+        born0, w0, allowed = token
+        if spec is not None and getattr(spec, "ghost_havoc", None) is not None:
+            return
+        for obj in CTX.writes[w0:]:
+            if getattr(obj, "_born", 1 << 60) < born0 and id(obj) not in allowed:
+                what = "an instance of %s" % obj.cls.name if isinstance(obj, VObj) else type(obj).__name__[1:].lower()
+                raise OutOfSubset("loop %s changes %s in place that existed before the loop and is not in its frame" % (key, what))
+
     def _havoc(self, scope, names, spec, unset_unknown=True):
         if spec is not None and getattr(spec, "ghost_havoc", None) is not None:
             import inspect
@@ -1465,6 +1490,7 @@ class Interp:
         self._check_inv(spec, scope, old, {}, "init", key)
         which = CTX.choose(2)
         self._havoc(scope, assigned, spec)
+        ftok = self._frame_open(scope, assigned, spec)
         iv = SInt(z3.Int(CTX.fresh_name(var)))
         scope.vars[var] = iv
         zs, ze = _zint(start), _zint(stop)
@@ -1475,6 +1501,7 @@ class Interp:
             if spec.at_head is not None:
                 token = spec.at_head(NS(scope, old, {}))
             r = self._run_body(s.body, scope)
+            self._frame_check(ftok, spec, key)
             if r == "break":
                 return
             if spec.at_end is not None:
@@ -1500,6 +1527,7 @@ class Interp:
         which = CTX.choose(2)
         frozen = lst.snapshot()
         self._havoc(scope, assigned, spec)
+        ftok = self._frame_open(scope, assigned, spec)
         k = SInt(z3.Int(CTX.fresh_name("idx")))
         if which == 0:
             CTX.assume(z3.And(0 <= k.t, k.t < _zint(n)))
@@ -1507,6 +1535,7 @@ class Interp:
             self.assign_target(s.target, frozen.get(k), scope)
             token = spec.at_head(NS(scope, old, {"idx": k})) if spec.at_head is not None else None
             r = self._run_body(s.body, scope)
+            self._frame_check(ftok, spec, key)
             if r == "break":
                 return
             if spec.at_end is not None:
@@ -1527,6 +1556,7 @@ class Interp:
         self._check_inv(spec, scope, old, {"idx": 0}, "init", key)
         which = CTX.choose(2)
         self._havoc(scope, assigned, spec)
+        ftok = self._frame_open(scope, assigned, spec)
         k = SInt(z3.Int(CTX.fresh_name("idx")))
         if which == 0:
             CTX.assume(z3.And(0 <= k.t, k.t < _zint(n)))
@@ -1534,6 +1564,7 @@ class Interp:
             self.assign_target(s.target, seq.pv_getitem(k), scope)
             token = spec.at_head(NS(scope, old, {"idx": k})) if spec.at_head is not None else None
             r = self._run_body(s.body, scope)
+            self._frame_check(ftok, spec, key)
             if r == "break":
                 if getattr(spec, "at_break", None) is not None:
                     spec.at_break(NS(scope, old, {"idx": k}), token)
@@ -1566,6 +1597,7 @@ class Interp:
         self._check_inv(spec, scope, old, {}, "init", key)
         which = CTX.choose(2)
         self._havoc(scope, assigned, spec)
+        ftok = self._frame_open(scope, assigned, spec)
         self._assume_inv(spec, scope, old, {})
         if which == 0:
             elem = None
@@ -1576,6 +1608,7 @@ class Interp:
             self.assign_target(s.target, elem, scope)
             token = spec.at_head(NS(scope, old, {})) if spec is not None and spec.at_head is not None else None
             r = self._run_body(s.body, scope)
+            self._frame_check(ftok, spec, key)
             if r == "break":
                 if spec is not None and getattr(spec, "at_break", None) is not None:
                     spec.at_break(NS(scope, old, {}), token)
@@ -1620,6 +1653,7 @@ class Interp:
         self._check_inv(spec, scope, old, {}, "init", key)
         which = CTX.choose(2)
         self._havoc(scope, assigned, spec)
+        ftok = self._frame_open(scope, assigned, spec)
         self._assume_inv(spec, scope, old, {})
         c = self.eval(s.test, scope)
         if which == 0:
@@ -1627,6 +1661,7 @@ class Interp:
                 raise PathEnd("guard false on iteration path")
             token = spec.at_head(NS(scope, old, {})) if spec.at_head is not None else None
             r = self._run_body(s.body, scope)
+            self._frame_check(ftok, spec, key)
             if r == "break":
                 return
             if spec.at_end is not None:
